@@ -156,7 +156,7 @@ def build_class(case, sm_mod, log, clock, scripts_abs):
         slash = st.get("slash")
         if slash is not None and 1 <= slash <= len(sig):
             sig.insert(slash, "/")          # positional-only parameters: def s(self, tm, /, state_tm)
-        src = "def %s(%s):\n    self._sm_call(%d, dict(%s))\n" % (
+        src = "def %s(%s):\n    return self._sm_call(%d, dict(%s))\n" % (
             sname(i), ", ".join(sig), i, ", ".join("%s=%s" % (p, p) for p in ps))
         ns = {}
         exec(src, ns)
@@ -201,6 +201,9 @@ def build_class(case, sm_mod, log, clock, scripts_abs):
         self._depth -= 1
         if not self._quiet:
             scripts_abs[k] = out
+        # what a state function returns is nobody's business: some return the name of a state, or a state object
+        if (k + i) % 4 == 0:
+            return sname(k % n) if k % 8 < 4 else getattr(type(self), sname(k % n))
 
     def next_state(self, name):
         nm = name if isinstance(name, str) else name.name
@@ -850,6 +853,21 @@ def oracle_auto(case, obs):
                     out.append(("C13", "op %d %r: first on_iteration after on_disable(); on_enable() called s%d with tm=%r initial_call=%r, "
                                        "expected the first state s%d with tm 0 and initial_call True" % (opi, op, c[1], c[2], c[4], case["first"])))
             fresh = False
+        if kind == "aiter" and latch and not is_exec and opi > 0:
+            # "... until done() is called or the last timed state expires": the machine has stopped in this iteration -- which
+            # of the two was it?  No done() in the scripts of the state functions that ran, and none of the states that were
+            # current during the iteration is a timed state without a successor: neither.
+            calls_ = [e for e in evs if e[0] == "call"]
+            involved = {e[1] for e in evs if e[0] in ("call", "enter")}
+            if obs[opi - 1][2] is not None:
+                involved.add(obs[opi - 1][2])
+            scripted_done = any(a[0] == "done" for e in calls_ if e[6] < len(case["scripts"]) for a in case["scripts"][e[6]])
+            could_expire = any(case["states"][str(s_)]["timed"] and case["states"][str(s_)]["next"] is None for s_ in involved)
+            if (calls_ and not scripted_done and not could_expire and case["default"] not in involved
+                    and not any(e[0] == "err" for e in evs)):
+                out.append(("C13", "op %d %r: the autonomous machine stopped (is_executing False) in an iteration in which no state function "
+                                   "called done() and no timed state without a successor was current (states involved: %s): it must run on "
+                                   "as if engage() preceded every iteration" % (opi, op, sorted(involved))))
         if kind == "adisable":
             disabled = True
         if kind == "aenable":
